@@ -158,3 +158,22 @@ func (fm *FontMap) VerifAppendFootprints(fps ...Footprint) {
 func VerifIsGenericFamily(family string) bool { return isGenericFamily(family) }
 
 func VerifIgnoreFontFile(name string) bool { return ignoreFontFile(name) }
+
+// VerifScore mirrors scoreStrong.
+type VerifScore struct {
+	Score  int
+	Strong bool
+}
+
+// VerifSubstitutionScores returns the score and strength the substitution table
+// gives to each concrete family for the current query and script of the font map
+// (the crible selectByFamilyWithSubs sorts with; pure accessor, own buffer).
+func (fm *FontMap) VerifSubstitutionScores() map[string]VerifScore {
+	c := make(familyCrible)
+	c.fillWithSubstitutionsList(fm.query.Families, language.ScriptToLang[fm.script])
+	out := make(map[string]VerifScore, len(c))
+	for k, v := range c {
+		out[k] = VerifScore{v.score, v.strong}
+	}
+	return out
+}
